@@ -15,3 +15,14 @@ chk("C02", "exploration",
     "Values restricted to IRIs and plain string literals; whitespace/parenthesis variants of the concrete syntax belong to C16.",
     "bounded exhaustive enumeration of path ASTs x small graphs against a reference denotation, on the real implementation",
     "DESIGN.md §3 C02")
+
+chk("C12", "exploration",
+    "Every report produced by the C01/C02/C14 enumerations plus families built for the id scheme (all three levels at once with >=11 results each, several traces per result, several sub-results per trace, nesting depth 3) is walked completely by a well-formedness oracle written from the statement.",
+    "The input's node table is taken from the abstract graph the document was rendered from.",
+    "bounded exhaustive enumeration of reports (by enumerating profiles x graphs) checked by a structural oracle",
+    "DESIGN.md §3 C12")
+chk("C14", "exploration",
+    "Exhaustive sweep, axis by axis, of lexical source maps on a fixed skeleton: all 4-tuples of line/column magnitudes, all node-to-file assignments, all subsets of nodes with node-level/property-level entries, with/without source information; every location in results, sub-results and traces is compared with the recorded numbers (as decimal strings) and file, and the rest of the report with the source-map-free report.",
+    "Axes are swept one at a time around a default (no full cross product).",
+    "bounded exhaustive enumeration of source-map assignments against the recorded values (differential with the map-free report)",
+    "DESIGN.md §3 C14")
